@@ -2,7 +2,7 @@
    Property theorems only; each is closed by [exact] of a lemma proved elsewhere. *)
 From Coq Require Import List NArith Arith String.
 Import ListNotations.
-From BB Require Import Ebnf Chars Lexer Syntax G4Data AtnData EbnfP LexerP LrecP ArtefactsP GrammarP.
+From BB Require Import Ebnf Chars Lexer Syntax G4Data AtnData EbnfP LexerP LrecP ArtefactsP GrammarP LexTotalP.
 
 (* (a) the oracles: for every character string the model lexer returns the token sequence prescribed by
    the grammar file (longest match, earliest rule wins ties), and it is the only such sequence *)
@@ -11,6 +11,12 @@ Theorem C14_lex_spec : forall (w:list N) (K F:nat) ts,
   LexSpec lex_g lex_rules w 0 ts /\ forall ts', LexSpec lex_g lex_rules w 0 ts' -> ts' = ts.
 Proof. exact (lex_spec lex_g lex_rules). Qed.
 Print Assumptions C14_lex_spec.
+
+(* ... and it answers on EVERY character string when given the fuels of the front end (closure fuel 8|w|+64, depth 64):
+   the oracle of the lexer comparison is total *)
+Theorem C14_lex_total : forall (w:list N), lex lex_g lex_rules w (8 * List.length w + 64) 64 <> None.
+Proof. exact lex_total. Qed.
+Print Assumptions C14_lex_total.
 
 (* for every token sequence the model recogniser decides membership in the language of the grammar file *)
 Theorem C14_recognise_correct : forall (toks:list nat) (K F:nat) b,
